@@ -1,0 +1,38 @@
+//go:build verif
+
+package ljh
+
+// Thin read-only access for the out-of-tree verification harness (/verif/harness, property C07).
+// Compiled only with `-tags verif`; adds no behaviour to the normal build.
+
+// VerifQueueLen reports the length of the asynchronous write queue (-1 before CreateFile).
+func (w *Writer) VerifQueueLen() int {
+	if w.writer == nil {
+		return -1
+	}
+	return w.writer.VerifQueueLen()
+}
+
+// VerifQueueCap reports the capacity of the asynchronous write queue (-1 before CreateFile).
+func (w *Writer) VerifQueueCap() int {
+	if w.writer == nil {
+		return -1
+	}
+	return w.writer.VerifQueueCap()
+}
+
+// VerifQueueLen reports the length of the asynchronous write queue (-1 before CreateFile).
+func (w *Writer3) VerifQueueLen() int {
+	if w.writer == nil {
+		return -1
+	}
+	return w.writer.VerifQueueLen()
+}
+
+// VerifQueueCap reports the capacity of the asynchronous write queue (-1 before CreateFile).
+func (w *Writer3) VerifQueueCap() int {
+	if w.writer == nil {
+		return -1
+	}
+	return w.writer.VerifQueueCap()
+}
